@@ -44,6 +44,7 @@ VARIABLES
   bits,        \* the session state bits: Secure Authn Ready OutClosed InClosed
   result,      \* outcome of NewSession / ReceiveSession: "none" | "ok" | "err"
   ncur,        \* feature whose Negotiate function runs / "none"
+  refused,     \* the application's callback refused what the peer asked for in this step
   addr,        \* the addresses the session reports now
   estab,       \* the addresses at the moment negotiation returned
   \* established phase, output side (Output.tla)
@@ -62,12 +63,12 @@ VARIABLES
   fserve,      \* "no" | "running" | "nil" | "err": Serve on the failed session
   fdeliv       \* stanzas given to the handler by it
 
-nvars == <<role, result, ncur, estab>>
+nvars == <<role, result, ncur, refused, estab>>
 ovars == <<prog, cur, lock, wire, rets, sv>>
 pvars == <<inbox, script>>
 cvars == <<table, cancelled, outcome, rid, claim, delivered>>
 fvars == <<fserve, fdeliv>>
-vars  == <<role, bits, result, ncur, addr, estab, prog, cur, lock, wire, rets, sv, inbox, script,
+vars  == <<role, bits, result, ncur, refused, addr, estab, prog, cur, lock, wire, rets, sv, inbox, script,
            table, cancelled, outcome, rid, claim, delivered, handled, deadline, fserve, fdeliv>>
 
 NoCall == [k |-> "none", st |-> "none", wrote |-> 0]
@@ -84,7 +85,7 @@ ServeProgram == <<"serve", "rx", "tx">>     \* Serve, then a read and a write af
 
 Init ==
   /\ role \in Roles
-  /\ bits \in InitBitsSet /\ result = "none" /\ ncur = "none"
+  /\ bits \in InitBitsSet /\ result = "none" /\ ncur = "none" /\ refused = FALSE
   /\ addr = (IF role = "init" THEN [local |-> "bare", remote |-> "dom"] ELSE [local |-> "none", remote |-> "none"])
   /\ estab = [local |-> "none", remote |-> "none"]
   /\ \E f \in [Txs -> Programs] :
@@ -110,19 +111,25 @@ Running == result = "none"
 NegHeader ==
   /\ Running /\ ncur = "none" /\ role = "recv" /\ addr.local = "none"
   /\ addr' = [local |-> "dom", remote |-> "bare"]
-  /\ UNCHANGED <<role, bits, result, ncur, estab, ovars, pvars, cvars, handled, deadline, fvars>>
+  /\ UNCHANGED <<role, bits, result, ncur, refused, estab, ovars, pvars, cvars, handled, deadline, fvars>>
 
 NegCall(f) ==
   /\ Running /\ ncur = "none" /\ addr.local # "none"
   /\ Nec(f) \subseteq bits /\ Pro(f) \cap bits = {}
-  /\ ncur' = f
+  /\ ncur' = f /\ refused' = FALSE
   /\ UNCHANGED <<role, bits, result, addr, estab, ovars, pvars, cvars, handled, deadline, fvars>>
+
+(* the application's callback (the resource binder, the SASL permission function) says no *)
+NegRefuse ==
+  /\ Running /\ ncur # "none" /\ ~refused /\ refused' = TRUE
+  /\ UNCHANGED <<role, bits, result, ncur, addr, estab, ovars, pvars, cvars, handled, deadline, fvars>>
 
 (* The feature's Negotiate function returns.  Resource binding on the initiating side *)
 (* updates the session's own address (UpdateAddr is allowed: not yet Ready).          *)
 (* naddr: the addresses after the step.                                               *)
 NegRet(f, ok, naddr) ==
-  /\ Running /\ ncur = f /\ ncur' = "none"
+  /\ Running /\ ncur = f /\ ncur' = "none" /\ UNCHANGED refused
+  /\ (ok => ~refused \/ "ReadyAfterRefusal" \in Dev)
   /\ IF ok
      THEN \/ /\ bits' = bits \cup Mask(f)
              /\ addr' = naddr
@@ -138,9 +145,10 @@ NegRet(f, ok, naddr) ==
 (* transport fault, cancellation, a bad header, the peer hanging up: the call fails *)
 NegAbort ==
   /\ Running /\ result' = "err"
-  /\ UNCHANGED <<role, bits, ncur, addr, estab, ovars, pvars, cvars, handled, deadline, fvars>>
+  /\ UNCHANGED <<role, bits, ncur, refused, addr, estab, ovars, pvars, cvars, handled, deadline, fvars>>
 
-BindAddr(f) == IF f = "bind" /\ role = "init" THEN [addr EXCEPT !.local = "full"] ELSE addr
+BindAddr(f) == IF f = "bind" /\ role = "init"
+               THEN [addr EXCEPT !.local = IF "EmptyAddress" \in Dev THEN "" ELSE "full"] ELSE addr
 
 -----------------------------------------------------------------------------
 (* Established .. Closed: the application's goroutines run.  Call protocol of        *)
@@ -160,7 +168,7 @@ Begin(p) ==
   /\ IF sv.owner = p /\ sv.phase \notin {"idle", "done"}       \* Serve is running: only calls it issues itself
      THEN sv.pending > 0 /\ sv' = [sv EXCEPT !.pending = @ - 1]
      ELSE UNCHANGED sv
-  /\ UNCHANGED <<role, bits, result, ncur, addr, estab, lock, wire, rets, pvars, cvars, handled, deadline, fvars>>
+  /\ UNCHANGED <<role, bits, result, ncur, refused, addr, estab, lock, wire, rets, pvars, cvars, handled, deadline, fvars>>
 
 (* sendResp: the request is entered into the table of pending requests before it is sent *)
 Register(i) ==
@@ -415,7 +423,7 @@ FServeRet(class) ==
 Classes == {"nil", "streamerr", "other", "closed"}
 
 NegNext ==
-  \/ NegHeader \/ NegAbort
+  \/ NegHeader \/ NegAbort \/ NegRefuse
   \/ \E f \in Features : NegCall(f) \/ \E ok \in BOOLEAN : NegRet(f, ok, BindAddr(f))
 
 EstNext ==
@@ -486,6 +494,9 @@ X_RequestOnlyWhenEstablished == table # {} => result = "ok"
 
 (* 4. the addresses after establishment are what negotiation established, for ever     *)
 X_AddrStable == result = "ok" => addr = estab
+X_EstablishedHasAddress == result = "ok" => estab.local \notin {"", "none"}     \* (the caller supplied / bound an address)
+(* a step in which the application refused what the peer asked for does not succeed   *)
+X_RefusalNotReady == [][refused /\ ncur # "none" /\ ncur' = "none" => result' = "err"]_vars
 X_UpdateAddrRefused ==
   \A p \in Procs : \A i \in 1..Len(rets[p]) : rets[p][i].k = "updaddr" => rets[p][i].class = "refused"
 
